@@ -104,7 +104,7 @@ DOMAIN = {"kappa": "pos", "rates": "pos", "freqs": "simplex", "shape": "pos", "p
 
 @st.composite
 def graph_case(draw):
-    g = draw(st.sampled_from(["G1", "G1", "G2", "G3", "G4", "G5"]))
+    g = draw(st.sampled_from(["G1", "G1", "G2", "G3", "G4", "G5", "G6", "G7"]))
     c = {"graph": g}
     if g in ("G1", "G2", "G3", "G5"):
         fam = draw(st.sampled_from(["nucleotide", "nucleotide", "codon"])) if g == "G1" else "nucleotide"
@@ -124,6 +124,14 @@ def graph_case(draw):
         if g == "G3":
             c["bd"] = {"R": [draw(logu(0.5, 3)) for _ in range(2)], "delta": [draw(logu(0.3, 2)) for _ in range(2)], "s": [draw(fl(0.1, 0.8)) for _ in range(2)],
                        "rho": [0.0, draw(fl(0.1, 0.9))], "offset": draw(logu(0.1, 2.0)), "times": draw(st.sampled_from(["default", "relative", "absolute"])), "loc": draw(st.sampled_from(["plain", "view", "transformed"]))}
+    elif g == "G6":
+        c["base"] = [draw(fl(-2, 2)) for _ in range(6)]
+        c["pos"] = [draw(logu(0.2, 5)) for _ in range(12)]
+    elif g == "G7":
+        c["base"] = [draw(fl(-2, 2)) for _ in range(8)]
+        c["pos"] = [draw(logu(0.2, 5)) for _ in range(6)]
+        c["q"] = draw(st.sampled_from(["single", "meanfield"]))
+        c["samples"] = draw(st.sampled_from([1, 3, [4]]))
     else:
         c["base"] = [draw(fl(-2, 2)) for _ in range(6)]
         c["pos"] = [draw(logu(0.2, 5)) for _ in range(3)]
@@ -137,13 +145,58 @@ def graph_case(draw):
     return c
 
 
-OPS = ["assign", "assign", "assign", "view", "cat", "transformed", "sample", "rsample", "operator", "inplace", "requires_grad", "eval"]
+OPS = ["assign", "assign", "assign", "view", "cat", "transformed", "sample", "rsample", "operator", "inplace", "requires_grad", "eval", "anon"]
+
+# G6: models whose hyper-parameters are written as constants: each becomes a Parameter without an id held by the model
+# alone.  (model id, position among the model's anonymous parameters, path of the constant in the specification, domain)
+G6_ANON = [("n", 0, ("n", "parameters", "loc"), "real"), ("n", 1, ("n", "parameters", "scale"), "pos"),
+           ("gam", 0, ("gam", "parameters", "concentration"), "pos"), ("gam", 1, ("gam", "parameters", "rate"), "pos"),
+           ("gd", 0, ("gd", "alpha"), "pos"), ("gd", 1, ("gd", "c"), "pos"), ("gd", 2, ("gd", "shape"), "pos"), ("gd", 3, ("gd", "rate"), "pos")]
+
+
+def g6_spec(c, consts=None):
+    b, q = c["base"], c["pos"]
+    k = consts or {("n", "parameters", "loc"): b[3:6], ("n", "parameters", "scale"): [q[0]], ("gam", "parameters", "concentration"): q[1:3],
+                   ("gam", "parameters", "rate"): [q[3]], ("gd", "alpha"): q[4], ("gd", "c"): q[5], ("gd", "shape"): q[6], ("gd", "rate"): q[7]}
+    spec = [
+        tt.P("x", b[:3]),
+        {"id": "n", "type": "Distribution", "distribution": "torch.distributions.Normal", "x": "x",
+         "parameters": {"loc": k[("n", "parameters", "loc")], "scale": k[("n", "parameters", "scale")]}},
+        {"id": "gam", "type": "Distribution", "distribution": "torch.distributions.Gamma", "x": tt.P("y", q[8:10]),
+         "parameters": {"concentration": k[("gam", "parameters", "concentration")], "rate": k[("gam", "parameters", "rate")]}},
+        {"id": "taxa", "type": "Taxa", "taxa": [{"id": t, "type": "Taxon"} for t in "ABCD"]},
+        {"id": "tree", "type": "UnRootedTreeModel", "newick": "((A,B),(C,D));", "taxa": "taxa", "branch_lengths": tt.P("bl", [0.1 * x for x in q[:5]])},
+        {"id": "gd", "type": "CompoundGammaDirichletPrior", "tree_model": "tree", "alpha": k[("gd", "alpha")], "c": k[("gd", "c")], "shape": k[("gd", "shape")], "rate": k[("gd", "rate")]},
+        {"id": "joint", "type": "JointDistributionModel", "distributions": ["n", "gam", "gd"]},
+    ]
+    return spec, k
 
 
 def build_spec(c):
     """-> (spec list, domains: leaf id -> domain, operators spec)"""
     g = c["graph"]
     dom = {}
+    if g == "G6":
+        spec, _ = g6_spec(c, c.get("_consts"))
+        return spec, {"x": "real", "y": "pos", "bl": "pos"}
+    if g == "G7":
+        # a variational objective with the analytic entropy: q is sampled and asked for its entropy but never called.
+        # The model p does not depend on the sampled variable, so the objective is a deterministic function of the
+        # parameters:  sum log N(data | m, s) + entropy(q)
+        b, q = c["base"], c["pos"]
+        spec = [{"id": "q1", "type": "Distribution", "distribution": "torch.distributions.Normal", "x": tt.P("z1", b[:2]),
+                 "parameters": {"loc": tt.P("q.loc", b[2:4]), "scale": tt.P("q.scale", q[:2])}}]
+        if c["q"] == "meanfield":
+            spec.append({"id": "q2", "type": "Distribution", "distribution": "torch.distributions.LogNormal", "x": tt.P("z2", q[4:5]),
+                         "parameters": {"loc": tt.P("q2.loc", b[6:7]), "scale": tt.P("q2.scale", q[5:6])}})
+            spec.append({"id": "q", "type": "JointDistributionModel", "distributions": ["q1", "q2"]})
+        spec += [{"id": "p", "type": "Distribution", "distribution": "torch.distributions.Normal", "x": tt.P("data", b[4:6]),
+                  "parameters": {"loc": tt.P("m", b[7:8]), "scale": tt.P("s", q[2:3])}},
+                 {"id": "joint", "type": "ELBO", "variational": "q" if c["q"] == "meanfield" else "q1", "joint": "p", "samples": c["samples"], "entropy": True}]
+        dom = {"q.loc": "real", "q.scale": "pos", "m": "real", "s": "pos"}
+        if c["q"] == "meanfield":
+            dom.update({"q2.loc": "real", "q2.scale": "pos"})
+        return spec, dom
     if g == "G4":
         spec = [
             tt.P("base", c["base"]),
@@ -333,6 +386,9 @@ def body(c):
     obs = observables(dic)
     if c.get("observe_heights") is False:
         obs = {k: v for k, v in obs.items() if not k.startswith("branch_lengths:")}
+    if c["graph"] == "G7":
+        # the variational distribution is never called and the variables it samples are not compared (fresh draws)
+        obs = {k: v for k, v in obs.items() if k.split(":", 1)[1] not in ("q", "q1", "q2", "z1", "z2")}
     names = sorted(obs)
     for nme in names:  # fill every cache
         observe(nme, obs[nme])
@@ -459,6 +515,30 @@ def body(c):
 
             def f():
                 p.requires_grad = not p.tensor.requires_grad
+
+            _, exc = guarded(f)
+        elif k == "anon" and g == "G6":
+            mid, pos, path, d = G6_ANON[op["t"] % len(G6_ANON)]
+            target = mid
+            anon = [q for q in dic[mid].parameters() if q.id is None]
+            if len(anon) <= pos:
+                raise AssertionError("harness: model %s holds %d parameters without id" % (mid, len(anon)))
+            q = anon[pos]
+            v = new_values(d, tuple(q.tensor.shape), op["u"], None, dic)
+            consts = dict(c.get("_consts") or g6_spec(c)[1])
+            cur = consts[path]
+            consts[path] = v.tolist() if isinstance(cur, list) else float(v.reshape(-1)[0])
+            c = dict(c, _consts=consts)
+            spec, dom = build_spec(c)
+            k = "anon:%s.%s" % (mid, path[-1])
+            if op["flag"]:
+                def f():
+                    q.tensor = v
+            else:
+                def f():
+                    with torch.no_grad():
+                        q.tensor.copy_(v)
+                    q.fire_parameter_changed()
 
             _, exc = guarded(f)
         elif k == "eval":
